@@ -1,5 +1,5 @@
 CONSTANTS MaxChar = 2  WordLen = 1  Full = FALSE
 INIT InitC
 NEXT NextC
-INVARIANTS Wf NullOk Involution ClassUniform StartOk
+INVARIANTS Wf NullOk Involution ClassUniform StartOk MatcherOk
 CHECK_DEADLOCK FALSE
